@@ -323,6 +323,7 @@ type schedProgram struct {
 	name      string
 	versioned bool
 	multi     bool                                               // needs a multi-bucket system
+	auto      bool                                               // front end built with the auto-bucket option
 	build     func(cr *concRun, r *rand.Rand) ([][]schedOp, []string) // runs the set-up (client "0"), returns the clients' operations and the keys of the final snapshot
 }
 
@@ -415,6 +416,15 @@ func schedPrograms(level string) []schedProgram {
 		}},
 		{name: "slowput-bucket-recreate", multi: true, build: func(cr *concRun, r *rand.Rand) ([][]schedOp, []string) {
 			return [][]schedOp{{slowput(cr, r, "w1_0", k1)}, {{op: Op{"op": "DeleteBucket", "b": concBucket}}, {op: Op{"op": "CreateBucket", "b": concBucket}}}, {head(k1)}}, both
+		}},
+		// the auto-bucket option: the existence check, the creation of a missing bucket and the call are three steps
+		// (spec/MC_FrontEnd.tla: the design itself is not atomic there; finding F35)
+		{name: "auto-put-deletebucket-head", multi: true, auto: true, build: func(cr *concRun, r *rand.Rand) ([][]schedOp, []string) {
+			return [][]schedOp{{put(cr, r, "w1_0", k1)}, {{op: Op{"op": "DeleteBucket", "b": concBucket}}}, {{op: Op{"op": "HeadBucket", "b": concBucket}}}}, both
+		}},
+		{name: "auto-put-put-get", multi: true, auto: true, build: func(cr *concRun, r *rand.Rand) ([][]schedOp, []string) {
+			setup(cr, put(cr, r, "w0_0", k1))
+			return [][]schedOp{{put(cr, r, "w1_0", k1)}, {put(cr, r, "w2_0", k1)}, {get(k1)}}, both
 		}},
 		{name: "v-put-put-get", versioned: true, build: func(cr *concRun, r *rand.Rand) ([][]schedOp, []string) {
 			setup(cr, put(cr, r, "w0_0", k1))
@@ -532,7 +542,7 @@ func exploreProgram(sysName string, p schedProgram, seed int64, max int, st *sch
 	n := 0
 	for {
 		s := &scheduler{ev: make(chan schedEvt)}
-		cr, reset, err := newConcRunOpts(sysName, p.versioned, seed, false, SysOpts{Wrap: s.wrap})
+		cr, reset, err := newConcRunOpts(sysName, p.versioned, seed, false, SysOpts{Wrap: s.wrap, Auto: p.auto})
 		if err != nil {
 			*problems = append(*problems, sysName+": "+err.Error())
 			return
@@ -621,6 +631,7 @@ func cmdSched(args []string) {
 	only := fs.String("programs", "", "only these programs (comma separated)")
 	max := fs.Int("max", 6000, "schedules per program and system")
 	par := fs.Int("parallel", 8, "programs explored side by side")
+	noAuto := fs.Bool("no-auto", false, "leave the auto-bucket programs out")
 	trace := fs.String("trace", "", "NDJSON output")
 	out := fs.String("out", "", "summary")
 	fs.Parse(args)
@@ -642,6 +653,9 @@ func cmdSched(args []string) {
 	for _, sysName := range strings.Split(*systems, ",") {
 		for _, p := range schedPrograms(*level) {
 			if *only != "" && !strings.Contains(","+*only+",", ","+p.name+",") {
+				continue
+			}
+			if *noAuto && p.auto {
 				continue
 			}
 			if p.multi && strings.HasPrefix(sysName, "single") {
